@@ -105,17 +105,29 @@ SpecStep(tt, st) ==
          IN [s |-> [Down EXCEPT !.fs = ApplyImage(s.fs, img), !.cfg = s.cfg, !.inst = s.inst],
              evs |-> <<[e |-> "crash", kind |-> "power", img |-> ImgDesc(s.fs, img), seq |-> 0]>>,
              fid |-> tt.fid, fault |-> FALSE]
+    [] a = "crash_in_open" ->
+         \* the directory is a post-crash image; recovery performs its first k modifying calls, then power is lost again
+         LET cfg == CfgOf(st.cfg)
+             o1 == Recover(s.fs, cfg, s.inst)
+             mods == SelectSeq(o1.evs, Modifying)
+             fsk == ApplyFsEvents(s.fs, mods, st.k, o1.s.st)
+             L2 == Linked(fsk)
+             img2 == [j \in 1..Len(L2) |-> [n |-> IF st.keep THEN Len(L2[j].recs) ELSE L2[j].dur, tail |-> "none"]]
+         IN [s |-> [Down EXCEPT !.fs = ApplyImage(fsk, img2), !.cfg = s.cfg, !.inst = s.inst],
+             evs |-> <<EvB("open", cfg)>> \o EventsUpTo(o1.evs, st.k)
+                     \o <<[e |-> "crash", kind |-> "power", img |-> ImgDesc(fsk, img2), seq |-> 0]>>,
+             fid |-> tt.fid, fault |-> FALSE]
     [] OTHER -> \* observation-only steps (read, iter, dump, obs, drain, lock_try ...): no effect on the store
                 [s |-> s, evs |-> <<>>, fid |-> tt.fid, fault |-> tt.fault]
 
 Known(a) == a \in {"open", "vote", "commit", "purge", "truncate", "userdata", "append", "flush", "wait_idle",
-                   "w", "fault", "reopen", "drop", "crash", "drain", "read", "iter", "dump", "obs", "wait_cb"}
+                   "w", "fault", "reopen", "drop", "crash", "crash_in_open", "drain", "read", "iter", "dump", "obs", "wait_cb"}
 
 \* can the spec take this step in its current state?
 Applicable(tt, st) ==
   /\ Known(st.a)
-  /\ (st.a \in {"open"} => ~tt.s.up)
-  /\ (st.a \notin {"open", "fault", "read", "iter", "dump", "obs", "wait_cb"} => tt.s.up)
+  /\ (st.a \in {"open", "crash_in_open"} => ~tt.s.up)
+  /\ (st.a \notin {"open", "crash_in_open", "fault", "read", "iter", "dump", "obs", "wait_cb"} => tt.s.up)
   /\ (st.a = "w" => WEnabled(tt.s))
 
 Drift(tt, why, e, want) ==
